@@ -185,6 +185,15 @@ def showPub (p : Pub) : String :=
   toString p.1 ++ "@" ++ ",".intercalate (p.2.map (fun r => toString r.1 ++ ":" ++ toString r.2))
 
 def handle (st : DriverC01.St) (l : Line) : Option (DriverC01.St × List String × Option String) := do
+  -- an array whose sharding configuration is INVALID (path `/bad`: the inner chunk shape does not divide the shard shape):
+  -- nothing is predicted; an operation may fail, and a buffer that IS returned must be tiled by the recorded writes
+  if st.path == "/bad".toList && l.verbs[1]? != some "cfg" then
+    match l.outcome.splitOn " wmaps=" with
+    | [_, wm] =>
+      let ms ← if wm == "-" then pure [] else (wm.splitOn ";").mapM parseMap
+      if ms.all (fun m => tiles m.1 m.2) then return (st, [l.outcome], none)
+      else return (st, ["every published buffer must be tiled by the recorded writes (invalid sharding configuration)"], none)
+    | _ => return (st, [if l.outcome == "panic" then "an error (not a panic)" else l.outcome], none)
   match l.outcome.splitOn " wmaps=" with
   | [val, wm] =>
     -- `async_subset`: the value of `retrieve_array_subset`; its buffers are judged by tiling only
